@@ -130,6 +130,15 @@ SHARDS.update({
 })
 
 # contracts/C10_editgeo.py: the two functions that go through the whole chain translation -> cursor cell -> line position
+# TextCanvas.content (contracts/C02_content.py): one row in full generality (~190 paths, ~30 s on one core); two rows over the
+# whole width (quick); every row window x every column window x with / without a map of two / three rows: ~3 min / ~10 min on one core
+SHARDS.update({
+    "urwid/canvas.py:TextCanvas.content": (6, 8),
+    "urwid/canvas.py:TextCanvas.content#two-rows-any-columns": (8, 8),
+    "urwid/canvas.py:TextCanvas.content#three-rows": (16, 10),
+})
+THOROUGH_ONLY += ("urwid/canvas.py:TextCanvas.content#two-rows-any-columns", "urwid/canvas.py:TextCanvas.content#three-rows")
+
 SHARDS.update({
     "urwid/widget/edit.py:Edit.keypress#up-down-home-end": (8, 9),
     "urwid/widget/edit.py:Edit.move_cursor_to_coords": (6, 4),
